@@ -3,7 +3,7 @@ from .fam_cluster import ClusterFam
 from .prop_C03 import REPLICA_TRUST
 
 PROP = Property(
-    "C01", ["HsVerif.Props.C01", "HsVerif.Props.C01Replica"], [ClusterFam("c01")],
+    "C01", ["HsVerif.Props.C01", "HsVerif.Props.C01Replica", "HsVerif.Props.C01Sys"], [ClusterFam("c01")],
     facts=[
         {"func": "protocol/rules/chainedhotstuff.go:ChainedHotStuff.VoteRule", "order": ["BlockHash", "QuorumCert", "Get", "BlockHash", "QuorumCert", "Get", "View", "View", "Extends"]},
         {"func": "protocol/rules/chainedhotstuff.go:ChainedHotStuff.CommitRule", "order": ["qcRef", "qcRef", "View", "View", "qcRef", "Parent", "Hash", "View", "View", "Parent", "Hash", "View", "View"]},
@@ -16,6 +16,7 @@ PROP = Property(
         "script generator consults the Lean model interactively to aim Byzantine messages at the honest replicas' real state; the scripts themselves are then ordinary inputs to both drivers",
     ],
     assumptions=[
+        "collision freedom of block hashes among honest votes (CF) is a hypothesis of the system-level theorems (in the model a hash is a field; a real hash determines the block)",
         "layer A (Lean): the voting discipline of honest replicas is a HYPOTHESIS of the safety theorem: one vote per view and parent certified/lower are proved of the replica model in C03 (votes_increasing, vote_wellformed); of the lock rule only 'the lock never moves to a lower view' is a Lean theorem of the replica model (lock_never_lowers); that a vote locks the grandparent and respects the current lock is checked on the implementation's own signing log by the cluster oracle (signature lock-rule) and is what the repaired VoteRule/CommitRule pair is modelled to do",
         "a certificate accepted by an honest replica implies a quorum of genuine votes (C02 soundness theorems) and honest signatures are unforgeable (symbolic crypto)",
         "at most numFaulty(n) replicas Byzantine",
@@ -24,7 +25,7 @@ PROP = Property(
 )
 
 META = {
-    "text": "Proof (layer A, unbounded in replicas, blocks, views, schedules): committed_blocks_on_one_branch — n >= 1 replicas, at most numFaulty(n) Byzantine, quorums of quorumSize(n) (intersection in an honest replica derived from C20's arithmetic by a counting lemma), honest replicas keeping the discipline (one vote per view; voted block's parent certified and lower; lock rule) => any two blocks meeting the commit condition b <- b' <- b'' (direct links, consecutive views, b'' certified) are on one branch; certified_extends_committed (every certified block at or above a committed block extends it); ledgers_prefix_related (two commit logs that are hash chains from genesis with increasing views and whose newest blocks meet the commit condition are prefix-related — the conclusion in the property's own terms); simple_rule_is_lock_rule (simplified HotStuff's vote condition is an instance). Tie and search: the cluster family runs 3..7 REAL replicas in one process against the same number of model replicas, line by line, under adversarial scripts written with the model's help: partitions, per-link delay/reordering/loss, fetch failures, local timeouts, and up to f Byzantine ids whose keys sign equivocating proposals, forks from older certified blocks, votes for everything, timeouts for current and future views, certificates assembled from votes seen on the wire. Oracle on the implementation's answers: every replica's commit log is a hash chain from genesis, any two logs are prefix-related, and every vote obeys the lock rule relative to the replica's earlier votes. Found with it and repaired: a replica that could not fetch a proposal's grandparent voted without locking and later voted for a conflicting branch (n=7, 2 Byzantine: two honest replicas committed a block three others never commit; corpus/cluster/01).",
+    "text": "Proof (layer A, unbounded in replicas, blocks, views, schedules): committed_blocks_on_one_branch — n >= 1 replicas, at most numFaulty(n) Byzantine, quorums of quorumSize(n) (intersection in an honest replica derived from C20's arithmetic by a counting lemma), honest replicas keeping the discipline (one vote per view; voted block's parent certified and lower; lock rule) => any two blocks meeting the commit condition b <- b' <- b'' (direct links, consecutive views, b'' certified) are on one branch; certified_extends_committed (every certified block at or above a committed block extends it); ledgers_prefix_related (two commit logs that are hash chains from genesis with increasing views and whose newest blocks meet the commit condition are prefix-related — the conclusion in the property's own terms); simple_rule_is_lock_rule (simplified HotStuff's vote condition is an instance). System level (Props/C01Sys, ECDSA/EdDSA): Model/Sys.lean composes any number of replica MODELS with one global signature table; the adversary delivers ANY event to any honest replica, sets what is fetchable, and forges signatures of Byzantine ids only; for every reachable system state honest_votes_unforgeable (a table entry of an honest id over a block message comes with that replica's vote record), honest_vote_discipline (every honest replica satisfies C03's invariant), one_certified_block_per_view (with at most numFaulty(n) Byzantine ids and collision-free hashes, two certified hashes of blocks of one view are equal), accepted_qc_certified (a QC the replica's verifier accepts is such a certified hash). Tie and search: the cluster family runs 3..7 REAL replicas in one process against the same number of model replicas, line by line, under adversarial scripts written with the model's help: partitions, per-link delay/reordering/loss, fetch failures, local timeouts, and up to f Byzantine ids whose keys sign equivocating proposals, forks from older certified blocks, votes for everything, timeouts for current and future views, certificates assembled from votes seen on the wire. Oracle on the implementation's answers: every replica's commit log is a hash chain from genesis, any two logs are prefix-related, and every vote obeys the lock rule relative to the replica's earlier votes. Found with it and repaired: a replica that could not fetch a proposal's grandparent voted without locking and later voted for a conflicting branch (n=7, 2 Byzantine: two honest replicas committed a block three others never commit; corpus/cluster/01).",
     "note": "Partial: the discipline hypotheses are proved of the replica model only in part (C03); lock invariant and log construction rest on the correspondence + oracles; no Lean safety theorem for Fast-HotStuff.",
     "technique": "Lean 4 safety theorem over abstract vote histories + quorum counting lemma; multi-replica differential correspondence (real cluster vs model cluster) under model-guided adversarial scripts; ledger and lock-rule oracle",
 }
